@@ -219,7 +219,11 @@ func (cs *clientState) unblock(reason string, isError bool) (wasBlocked bool) {
 				cs.unblockCh <- unblockReason{reason: reason, isError: isError}
 			}
 		}
-		atomic.SwapInt32(&cs.blocked, locked)
+		if locked != CS_CHECKING {
+			// put back what was swapped out; CS_CHECKING belongs to another
+			// checker, which restores the word itself
+			atomic.StoreInt32(&cs.blocked, locked)
+		}
 
 		if locked == CS_UNCAPTURED || locked == CS_CAPTURED {
 			return
@@ -246,7 +250,10 @@ func (cs *clientState) isBlocked() bool {
 		if locked == CS_CAPTURED {
 			blocked = true
 		}
-		atomic.SwapInt32(&cs.blocked, locked)
+		if locked != CS_CHECKING {
+			// (see unblock)
+			atomic.StoreInt32(&cs.blocked, locked)
+		}
 
 		if locked == CS_UNCAPTURED || locked == CS_CAPTURED {
 			return blocked
